@@ -203,8 +203,9 @@ class BaseVersion(object):
             setattr(self, private, value)
             try:
                 self._update_full_version()
-            except ValueError:
-                # Don't leave it in an invalid state
+            except (ValueError, TypeError):
+                # Don't leave it in an invalid state (TypeError: the
+                # mandatory upstream_version was set to None)
                 setattr(self, private, old_value)
                 self._update_full_version()
                 raise ValueError("Setting %s to %r results in invalid version"
